@@ -545,7 +545,8 @@ def _run(prop, a, tier, seed, t0):
     problems = audit_coq(pid)
     if problems:
         raise MachineryBroken("Coq audit failed:\n  " + "\n  ".join(problems))
-    ok, log = coq_build(["Common/Hex.vo", "%s/Properties.vo" % pid, "%s/%s.vo" % (pid, prop.exec_mod)])
+    ok, log = coq_build(["Common/Hex.vo", "%s/Properties.vo" % pid, "%s/%s.vo" % (pid, prop.exec_mod)]
+                        + list(getattr(prop, "extra_coq_targets", [])))
     if not ok:
         raise MachineryBroken("Coq build of %s failed:\n%s" % (pid, log[-4000:]))
     obligations, discharged, assum_text, pproblems = pins_check(pid)
